@@ -51,7 +51,12 @@ void honest_oracle(const Plan *p, const HonestOut *o, RunResult *r)
 		}
 	for (int d = 0; d < 2; d++) {
 		uint64_t want = 0;
-		for (int i = 0; i < p->nrounds; i++) want += (uint64_t)p->rounds[i].n[d];
+		for (int i = 0; i < p->nrounds; i++) {
+			const Round *rr = &p->rounds[i];
+			want += (uint64_t)rr->n[d];
+			if ((rr->mode == RM_C2S_ACKED && d == DIR_S2C) || (rr->mode == RM_S2C_ACKED && d == DIR_C2S))
+				want += (uint64_t)(rr->n[1 - d] / (rr->ack_every > 0 ? rr->ack_every : 1)) * (uint64_t)(rr->ack_size > 0 ? rr->ack_size : 1);
+		}
 		if (o->wrote[d] != want || o->got[d] != want) {
 			rr_violation(r, "stream_short", "proto=%s dir=%d wrote=%llu got=%llu want=%llu", g_proto_names[p->proto],
 				d, (unsigned long long)o->wrote[d], (unsigned long long)o->got[d], (unsigned long long)want);
